@@ -128,6 +128,7 @@ R02.4 (Go) interface discovery does not descend into function bodies (FuncDecl a
 	}
 	r := loadRepo(c, packages.LoadSyntax, "", "./internal", "./template")
 	goC02(c, r)
+	accessorTableGuard(c, "R02.6")
 }
 
 func matryerEnsureLine(c *Ctx, p *TPath) {
